@@ -19,8 +19,8 @@ from ..common import workdir, rm_workdir, seed, MachineryError
 
 POOLS = {
     'CodePool': ['x = ', '\n', 'f(a)[0] ', '{1: 2}', ' % 3'],
-    'QuotePool': ['a', '${q}', '#', 'it"s', "o'c $"],
-    'CommentPool': [' note', ' \'${c}\' "', ''],
+    'QuotePool': ['a', '${q}', '#', 'it"s', "o'c $", 'tab\\t'],          # a backslash that does not stand before the terminator
+    'CommentPool': [' note', ' \'${c}\' "', '', ' C:\\data\\'],       # a comment that ends with a backslash still ends at the newline
     'ExprPool': ['/001001', ' /001001 ', '%length', "a'#b", '', '/a > b.c[1:2]'],
 }
 
